@@ -108,6 +108,14 @@ def gen_cases(rng, tier):
                                      posmode="ln2" if (nself, mem) != (0, 1) else "free", via="algmod"))
         for via in ("algmod", "gmod", "fcty_gmod", "fcty_algmod"):
             cases.append(_mkcase(rng, scheme, "var", via=via, n=2))
+    # usefulness criterion: every scheme x entry point x unique/repeated parents, enough taxa for a proper cross
+    for scheme in SCHEMES:
+        for ucvia in ("calc", "Subset", "Real", "Integer", "Binary"):
+            for unique in (True, False):
+                c = _mkcase(rng, scheme, "uc", n={"two": 3, "three": 4 if unique else 3, "four": 4 if unique else 2, "di": 3}[scheme],
+                            ucvia=ucvia, sizes=[2, 2] if scheme == "four" else None)
+                c["unique"] = unique
+                cases.append(c)
     N = {"quick": 170, "thorough": 2600}[tier]
     for _ in range(N):
         scheme = rng.choice(["two", "two", "three", "four", "di", "di"])
